@@ -49,15 +49,23 @@ Part B — the parameter handling.
   one give the same sketch, the same error behaviour, the same md5 and the same JSON;
 * `names_merged`, `names_singleton`, `names_per_file`, `names_stdin`: per record or merged, named
   from file or first record;
+* `parse_refusal_iff` / `item_refusal_iff` / `refusal_classes`: total classification of the refusals
+  with their reasons (one per `raise` site); `parse_wellformed`, `parse_canonical_roundtrip`: every
+  well-formed string is read as its items mean and round-trips through its canonical form;
+  `conflicts_resolved`, `moltype_rule`: repeated / conflicting items and molecule words, exactly;
+* `outputs`: `-o` vs `--output-dir` vs the current directory; `fromfile_*`: `sketch fromfile` builds
+  exactly the requested signatures that are neither already done nor impossible, each once;
 * the literal tables re-extracted by the translator are what the model assumes
   (`defaults_wellformed`, `template_order`, `cp_defaults_agree`).
 -/
 import SmVerif.Lemmas.BTreeHist
 import SmVerif.Lemmas.SketchParams
+import SmVerif.Lemmas.SketchCanon
 import SmVerif.Lemmas.BTreeQuery
 import SmVerif.Lemmas.SketchFeed
 import SmVerif.Lemmas.BTreeCache
 import SmVerif.Lemmas.SketchNames
+import SmVerif.Lemmas.SketchFromfile
 import SmVerif.Props.C01
 
 namespace Sm.C14
@@ -329,34 +337,102 @@ theorem bt_fed_reachable (hashS : Nat → List Nat → Nat) (p : Sketch.CP) (k :
 
 open Sketch
 
-/-- the parser is total: every string yields parameters or one of three exception classes -/
+/-- the parser is total: every string yields parameters or a refusal with a reason -/
 theorem parse_total (s : List Char) :
-    (∃ r, parseParamsStr s = .ok r) ∨ parseParamsStr s = .error .value ∨
-    parseParamsStr s = .error .argType ∨ parseParamsStr s = .error .overflow := by
+    (∃ r, parseParamsStr s = .ok r) ∨ (∃ r : Reason, parseParamsStr s = .error r) := by
   cases h : parseParamsStr s with
   | ok r => exact Or.inl ⟨r, rfl⟩
-  | error e => cases e <;> simp
+  | error e => exact Or.inr ⟨e, rfl⟩
+
+/-- **total classification of the refusals**: a string is refused with reason `r` exactly when
+its first item that is not accepted is `Refused` for that reason — `Refused`
+(`Lemmas/SketchParams.lean`) spells out, per reason, the category the item falls in (the first of:
+abund/noabund, `k…`, `num…`, `scaled…`, `seed…`, molecule word) and what is wrong with it, given
+what the earlier items have set (a `num=` after a non-zero `scaled=`, and vice versa) -/
+theorem parse_refusal_iff (s : List Char) (r : Reason) :
+    parseParamsStr s = .error r ↔
+      ∃ pre item post st, splitOn ',' s = pre ++ item :: post ∧
+        foldItems pre (none, {}) = .ok st ∧ Refused st item r :=
+  Sketch.parse_error_iff s r
+
+theorem item_refusal_iff (st : Option Mol × Params) (item : List Char) (r : Reason) :
+    stepItem st item = .error r ↔ Refused st item r :=
+  Sketch.stepItem_error_iff st item r
+
+/-- the exception class of every reason: ArgumentTypeError exactly for a negative num / scaled,
+OverflowError exactly for numbers that do not fit, ValueError otherwise -/
+theorem refusal_classes (r : Reason) :
+    (r.cls = .argType ↔ r = .numNegative ∨ r = .scaledNegative) ∧
+    (r.cls = .overflow ↔ r = .scaledTooBig ∨ r = .seedRange ∨ r = .ksizeRange ∨ r = .numRange ∨
+      r = .scaledRange) := by
+  cases r <;> simp [Reason.cls]
 
 /- FULL STATEMENT (not proved / false):
      theorem parse_total_or_error (s : List Char) :
-         (∃ r, parseParamsStr s = .ok r) ∨ parseParamsStr s = .error .value
+         (∃ r, parseParamsStr s = .ok r) ∨ ∃ r, parseParamsStr s = .error r ∧ r.cls = .value
    ("every string yields parameters or a ValueError", which is what `sketch dna|protein|translate`
    catch and report).  Counterexample `parse_error_class_counterexample`: `num=-5` and `scaled=-1`
    raise argparse.ArgumentTypeError (from check_num_bounds / check_scaled_bounds), which is not a
    ValueError; the command dies with a traceback instead of "Error creating signatures".
-   Minimal correction: exclude negative (and astronomically large) num= / scaled= values. -/
-theorem parse_error_class_partial (s : List Char) (e : PErr) (h : parseParamsStr s = .error e)
-    (hne : e ≠ .value) :
-    ∃ item ∈ splitOn ',' s, ∃ n : Int,
-      (("num".toList.isPrefixOf item ∧ pyInt? (item.drop 4) = some n ∧ n < 0 ∧ e = .argType) ∨
-       ("scaled".toList.isPrefixOf item ∧ pyInt? (item.drop 7) = some n ∧
-          ((n < 0 ∧ e = .argType) ∨ (floatOfNat n.natAbs = none ∧ e = .overflow)))) :=
-  Sketch.parse_error_class s e h hne
-
+   Minimal correction: `refusal_classes` (exclude negative and astronomically large values). -/
 theorem parse_error_class_counterexample :
-    parseParamsStr "num=-5".toList = .error .argType ∧
-    parseParamsStr "k=21,scaled=-1".toList = .error .argType :=
-  ⟨by decide +kernel, by decide +kernel⟩
+    parseParamsStr "num=-5".toList = .error .numNegative ∧
+    parseParamsStr "k=21,scaled=-1".toList = .error .scaledNegative ∧
+    Reason.numNegative.cls = .argType ∧ Reason.scaledNegative.cls = .argType :=
+  ⟨by decide +kernel, by decide +kernel, rfl, rfl⟩
+
+/-- **every well-formed `-p` string is read as its items mean**: the `,`-joined rendering
+(decimal numbers) of any non-empty list of items parses to the left-to-right application of the
+items' semantics (`Item.apply`: k sizes accumulate in order, later abund/noabund, seed and molecule
+words override earlier ones, `num=` after a non-zero `scaled=` — and vice versa — is refused) -/
+theorem parse_wellformed (items : List Item) (hne : items ≠ []) :
+    parseParamsStr (renderItems items) = applyAll items (none, {}) :=
+  Sketch.parse_render items hne
+
+/-- **canonical form**: if a well-formed string is accepted, so is its canonical form (molecule
+word, the k sizes in order, the last num/scaled, the last abund/noabund, the last seed), with the
+same result -/
+theorem parse_canonical_roundtrip (items : List Item) (hne : items ≠ []) (r : Option Mol × Params)
+    (h : parseParamsStr (renderItems items) = .ok r) :
+    parseParamsStr (renderItems (summarize items).canon) = .ok r := by
+  rw [parse_wellformed items hne] at h
+  have hc : (summarize items).canon ≠ [] :=
+    Sketch.canon_ne_nil _ (Sketch.nonTrivial_foldl items {} (Or.inr hne))
+  rw [parse_wellformed _ hc]
+  exact Sketch.canon_roundtrip items r h
+
+/-- conflicting and repeated items, exactly: repeated `k=` accumulate (one sketch each, in order);
+num and scaled in one string are refused unless the earlier one is 0; `scaled=0` / `num=0` are
+accepted (known finding C14.1); the last of abund/noabund wins; unknown words, empty items and
+`k` without a number are refused, each with its reason -/
+theorem conflicts_resolved :
+    (parseParamsStr "k=21,k=31,k=21".toList).toOption.map (fun r => r.2.ksize) = some [21, 31, 21] ∧
+    parseParamsStr "num=5,scaled=10".toList = .error .scaledAfterNum ∧
+    parseParamsStr "scaled=10,num=5".toList = .error .numAfterScaled ∧
+    (parseParamsStr "num=0,scaled=10".toList).toOption.map (fun r => (r.2.num, r.2.scaled)) =
+      some (some 0, some 10) ∧
+    (parseParamsStr "scaled=0".toList).toOption.map (fun r => (r.2.num, r.2.scaled)) =
+      some (some 0, some 0) ∧
+    (parseParamsStr "abund,noabund,abund".toList).toOption.map (fun r => r.2.track) = some (some true) ∧
+    parseParamsStr "k=21,foo".toList = .error .unknownItem ∧
+    parseParamsStr "k=21,".toList = .error .unknownItem ∧
+    parseParamsStr "k".toList = .error .kNoParam ∧
+    parseParamsStr "k=abc".toList = .error .kNotInt ∧
+    parseParamsStr "scaled=1.5".toList = .error .scaledNotInt ∧
+    (parseParamsStr "dna,protein".toList).toOption.map (fun r => r.1) = some (some Mol.protein) := by
+  decide +kernel
+
+/-- molecule words against the subcommand's molecule type (`sketch dna` = dna; `sketch protein` /
+`translate` = protein, dayhoff or hp; `fromfile` = none): a non-DNA word under `dna` and `dna`
+under a protein type are refused, a string without a word needs a default, everything else is
+accepted with the word's molecule type -/
+theorem moltype_rule :
+    ∀ m ∈ [Mol.dna, Mol.protein, Mol.dayhoff, Mol.hp],
+    ∀ d ∈ [none, some Mol.dna, some Mol.protein, some Mol.dayhoff, some Mol.hp],
+      (factoryInit [("k=5," ++ m.name).toList] d).toOption.map (fun l => l.map Prod.fst) =
+        (if (m ≠ .dna ∧ d = some .dna) ∨ (m = .dna ∧ d ≠ none ∧ d ≠ some .dna) then none else some [m]) ∧
+      (factoryInit ["k=5".toList] d).toOption.map (fun l => l.map Prod.fst) = d.map (fun x => [x]) := by
+  decide +kernel
 
 /-- no accepted parameter string describes both a num and a scaled sketch, and `num` is set
 exactly when `scaled` is -/
@@ -490,6 +566,82 @@ theorem names_per_file (nff : Bool) (f : SeqFile) :
 /-- standard input is recorded as the empty file name, every other name as it is -/
 theorem names_stdin : recordedFilename "-".toList = [] ∧ recordedFilename "a.fa".toList = "a.fa".toList := by
   decide
+
+/-- where the signatures go: with `-o FILE` everything lands in that file, in order; `--merge`
+needs `-o`; without `-o` every signature set lands in `basename(input).sig`, in the output
+directory or the current one — and an output directory that does not exist is an error once there
+is something to write (known finding C14.2: it is not created) -/
+theorem outputs (mode : NameMode) (files : List SeqFile) :
+    planOutputs mode .single files = .ok ((plan mode files).map (fun u => ("out.sig".toList, u))) ∧
+    (∀ nm, planOutputs (.merge nm) .cwd files = .error .exit ∧
+           ∀ ex, planOutputs (.merge nm) (.dir ex) files = .error .exit) ∧
+    (∀ nff, planOutputs (.perFile nff) .cwd files =
+      .ok ((plan (.perFile nff) files).map (fun u => (basename u.filename ++ ".sig".toList, u)))) ∧
+    (∀ nff, plan (.perFile nff) files ≠ [] → planOutputs (.perFile nff) (.dir false) files = .error .noDir) := by
+  refine ⟨?_, fun nm => ⟨rfl, fun ex => rfl⟩, fun nff => rfl, ?_⟩
+  · cases mode <;> rfl
+  · intro nff h
+    unfold planOutputs
+    simp only []
+    rw [if_neg (by simpa using h)]
+    rfl
+
+/-! ### `sketch fromfile` (`Model/SketchFromfile.lean`) -/
+
+/-- every requested signature is a (CSV row, parameter set) pair, `|names| × |parameter sets|` of them -/
+theorem fromfile_requested (names : List FFRow) (build : List CP) (r : FFRow) (p : CP) :
+    ((r, p) ∈ requested names build ↔ r ∈ names ∧ p ∈ build) ∧
+    (requested names build).length = names.length * build.length :=
+  ⟨Sketch.mem_requested names build r p, Sketch.requested_length names build⟩
+
+/-- **built ∪ already-done ∪ impossible = exactly the requested set, no duplicates**: every request
+has exactly one fate (skipped: an `--already-done` row with the same name and equal parameters;
+missing: the file its molecule type needs is blank; build otherwise), the three counts add up to
+the number of requests, the (name, file) keys under which parameter sets are filed for building are
+distinct, exactly as many parameter sets are filed as requests have fate `build`, and a parameter
+set is filed under (name, file) iff it was requested for that name with fate `build` and `file` is
+the genome (DNA) resp. protein file of that row -/
+theorem fromfile_builds_exactly (done : List DoneRow) (reqs : List (FFRow × CP)) :
+    ((toBuild done reqs).map Prod.fst).Nodup ∧
+    totalSize (toBuild done reqs) = (reqs.filter (fun rp => fate done rp.1 rp.2 = .build)).length ∧
+    (∀ k p, p ∈ groupOf (toBuild done reqs) k ↔
+      ∃ r, (r, p) ∈ reqs ∧ fate done r p = .build ∧ k = (r.name, fileFor r p)) ∧
+    (reqs.filter (fun rp => fate done rp.1 rp.2 = .build)).length +
+    (reqs.filter (fun rp => fate done rp.1 rp.2 = .skipped)).length +
+    (reqs.filter (fun rp => fate done rp.1 rp.2 = .missing)).length = reqs.length :=
+  ⟨(Sketch.toBuild_spec done reqs).1, (Sketch.toBuild_spec done reqs).2.1, (Sketch.toBuild_spec done reqs).2.2,
+   Sketch.fates_partition done reqs⟩
+
+/-- the skip rule: a request is skipped exactly when an already-done row has the same name and, read
+as `ComputeParameters.from_manifest_row` reads it (k ×3 for the protein alphabets, seed 42), equal
+k size, molecule type, num, scaled and abundance flag -/
+theorem fromfile_skip_rule (done : List DoneRow) (r : FFRow) (p : CP) :
+    fate done r p = .skipped ↔ ∃ d ∈ done, d.name = r.name ∧ d.cp = p := by
+  unfold fate doneFor
+  constructor
+  · intro h
+    split at h
+    · rename_i hc
+      simp only [List.contains_iff_mem, List.mem_map, List.mem_filter, decide_eq_true_eq] at hc
+      obtain ⟨d, ⟨hd, hn⟩, rfl⟩ := hc
+      exact ⟨d, hd, hn, rfl⟩
+    · split at h <;> cases h
+  · rintro ⟨d, hd, hn, rfl⟩
+    rw [if_pos]
+    simp only [List.contains_iff_mem, List.mem_map, List.mem_filter, decide_eq_true_eq]
+    exact ⟨d, ⟨hd, hn⟩, rfl⟩
+
+/-- early exits, in the order the command checks them -/
+theorem fromfile_exits (build : List CP) (rows : List FFRow) (done : List DoneRow) (ign : Bool) :
+    (build.any (fun p => p.seed ≠ Gen.sketchDefaultSeed) = true →
+      fromfilePlan build rows done ign = .error .seedSet) ∧
+    (build.any (fun p => p.seed ≠ Gen.sketchDefaultSeed) = false → namesOk rows = false →
+      fromfilePlan build rows done ign = .error .badNames) := by
+  constructor
+  · intro h; unfold fromfilePlan; rw [if_pos h]
+  · intro h1 h2
+    unfold fromfilePlan
+    rw [if_neg (by rw [h1]; exact Bool.false_ne_true), if_pos (by rw [h2]; rfl)]
 
 /-! ### the translator's tables are the ones the model assumes -/
 
